@@ -131,7 +131,7 @@ var controlTable = []ctl{
 	{[]string{"C01", "C02", "C03"}, "neg-or-condition-reordered", false, "", "internal/check/binop.go", "if result.Err != nil || result.Membership == checkgroup.IsMember {", "if result.Membership == checkgroup.IsMember || result.Err != nil {", false},
 	{[]string{"C03", "C15"}, "neg-error-wrapped-before-errorfunc", false, "", "internal/check/engine.go", "} else if err != nil {\n\t\t\tg.Add(checkgroup.ErrorFunc(err))", "} else if err != nil {\n\t\t\tg.Add(checkgroup.ErrorFunc(errors.WithStack(err)))", false},
 	{[]string{"C01", "C04", "C06", "C07"}, "neg-sql-reformatted", false, "", "internal/persistence/sql/traverser.go", "WHERE current.nid = ? AND\n      current.shard_id > ? AND", "WHERE   current.nid = ?   AND\n\n      current.shard_id > ?\n AND", false},
-		{[]string{"C07"}, "neg-limit-parenthesised", false, "", "internal/persistence/sql/relationtuples.go", "Limit(pagination.PerPage + 1)", "Limit((pagination.PerPage) + 1)", false},
+	{[]string{"C07"}, "neg-limit-parenthesised", false, "", "internal/persistence/sql/relationtuples.go", "Limit(pagination.PerPage + 1)", "Limit((pagination.PerPage) + 1)", false},
 	{[]string{"C15"}, "neg-withedge-capacity-two", false, "", "internal/check/checkgroup/definitions.go", "childCh := make(chan Result, 1)", "childCh := make(chan Result, 2)", false},
 	{[]string{"C02"}, "neg-clamp-with-min", false, "", "internal/check/engine.go", "if globalMaxDepth := e.d.Config(ctx).MaxReadDepth(); restDepth <= 0 || globalMaxDepth < restDepth {\n\t\trestDepth = globalMaxDepth\n\t}\n\n\tresultCh", "globalMaxDepth := e.d.Config(ctx).MaxReadDepth()\n\tif restDepth <= 0 {\n\t\trestDepth = globalMaxDepth\n\t}\n\trestDepth = min(restDepth, globalMaxDepth)\n\n\tresultCh", false},
 	{[]string{"C19"}, "neg-errs-renamed", false, "", "internal/driver/config/opl_config_namespace_watcher.go", "errs", "parseErrs", true},
